@@ -12,7 +12,9 @@
 (*   type parameter of a "generic" parameter declares its bound), lwhere   *)
 (*   (a second lifetime 'b that outlives 'a, declared "where" (`where      *)
 (*   'b: 'a`) or "inline" (`<'a, 'b: 'a>`); "none"), async, qual, ret, gname *)
-(*   (the name prefix of its type parameters)]                             *)
+(*   (the name prefix of its type parameters), cfirst (a const parameter  *)
+(*   declared before the type parameters), cform (how a concrete          *)
+(*   dependency type is written: "path" `crate::Conc` / "ident" `Conc`)]   *)
 (***************************************************************************)
 EXTENDS TLC, Sequences, Naturals, FiniteSets, SequencesExt
 
@@ -25,13 +27,16 @@ Rets == {"unit", "owned", "borrow-deps", "borrow-arg", "borrow-arg-elided", "gen
 
 UsesLife(f) == f.deps.pass = "reflife" \/ (\E i \in DOMAIN f.params : f.params[i] = "reflife") \/ f.ret \in {"borrow-deps", "borrow-arg"}
 \* the generic parameter list of the function, in declaration order: [kind, name]
+HasArray(f) == \E i \in DOMAIN f.params : f.params[i] = "array"
+\* (cfirst: the const parameter is declared BEFORE the type parameters - legal since Rust 1.59)
 Generics(f) ==
   (IF UsesLife(f) THEN << [kind |-> "life", name |-> "'a"] >> ELSE << >>)
   \o (IF f.lwhere # "none" THEN << [kind |-> "life", name |-> "'b"] >> ELSE << >>)
+  \o (IF HasArray(f) /\ f.cfirst THEN << [kind |-> "const", name |-> "N"] >> ELSE << >>)
   \o (IF f.deps.kind = "generic" THEN << [kind |-> "type", name |-> "D"] >> ELSE << >>)
   \o SelectSeq([i \in DOMAIN f.params |-> IF f.params[i] = "generic" THEN [kind |-> "type", name |-> f.gname \o ToString(i)] ELSE [kind |-> "none", name |-> ""]],
                LAMBDA g : g.kind # "none")
-  \o (IF \E i \in DOMAIN f.params : f.params[i] = "array" THEN << [kind |-> "const", name |-> "N"] >> ELSE << >>)
+  \o (IF HasArray(f) /\ ~f.cfirst THEN << [kind |-> "const", name |-> "N"] >> ELSE << >>)
 \* where-predicates: [kind \in {"type", "life"}, on]
 WherePreds(f) ==
   (IF f.lwhere = "where" THEN << [kind |-> "life", on |-> "'b"] >> ELSE << >>)
